@@ -144,7 +144,7 @@ class Enc(Engine):
         # bad key lengths, operations without a context
         for kl in (0, 5, 15, 17, 33):
             yield Case(f'badkey{kl}', [f'init e {hx(rnd_bytes(rng, kl))} 0', 'upd 00 1', 'rel'])
-        n = 250 if tier == 'quick' else 6000
+        n = 250 if tier == 'quick' else 1500
         for i in range(n):
             k = rng.choice([1, 2, 3, 5, 9])
             lens = [rng.choice(self.SIZES) if rng.random() < 0.8 else rng.randrange(0, 6000) for _ in range(k)]
@@ -237,7 +237,7 @@ class Trad(Engine):
                  os.path.join(core.HARNESS, 'c20_trad_r.c'), os.path.join(core.HARNESS, 'c20_trad_w.c'))
 
     def gen(self, rng, tier):
-        n = 300 if tier == 'quick' else 8000
+        n = 300 if tier == 'quick' else 1800
         for i in range(n):
             pw = rng.choice(PASSES + [b'', rnd_bytes(rng, rng.choice([1, 3, 8, 40]))])
             chk = rng.randrange(256)
@@ -353,7 +353,7 @@ class Pass(Engine):
     name = 'pass'
 
     def gen(self, rng, tier):
-        n = 500 if tier == 'quick' else 15000
+        n = 500 if tier == 'quick' else 3000
         for i in range(n):
             ops = []
             tag = 0
@@ -536,6 +536,9 @@ class ZipEnc(Engine):
             rcb = 'n'
         elif mode == 'many-wrong':
             rcb = f'r{rng.choice([300, 700])}x{hx(w1)},{hx(wp)}'
+        elif mode == 'many-distinct':
+            # hundreds of different wrong passphrases: some pass the 1-byte PKWARE check by accident
+            rcb = ','.join(hx(b'wrong-%d' % i) for i in range(rng.choice([400, 500]))) + ',' + hx(wp)
         wps = f'{by}:{hx(wp)}' if wp != b'<none>' else 'none'
         op = (f'rt enc={enc} comp={comp} sz={sz} body={body} wc={wc} wp={wps} rp={rp} rcb={rcb} '
               f'bs={bs} seek={seek} tamper={tamper}')
@@ -546,14 +549,19 @@ class ZipEnc(Engine):
     def gen(self, rng, tier):
         quick = tier == 'quick'
         # every body length 0..48 for every encryption x compression, right and wrong passphrase
+        # (several round trips per case: one forked child serves them all)
         for enc in self.ENCS:
             for comp in ('store', 'deflate'):
+                batch = []
                 for L in range(0, 49):
                     body = 'h:' + hx(rnd_bytes(rng, L))
                     for sz in (('set', 'unset') if (not quick or L in (0, 1, 15, 16, 17, 19, 20, 21, 32, 48)) else (rng.choice(['set', 'unset']),)):
-                        yield self.rt(rng, f'{enc}.{comp}.{L}.{sz}', enc, comp, body, sz=sz, mode='right' if L % 3 else rng.choice(self.MODES))
+                        batch.append(self.rt(rng, '', enc, comp, body, sz=sz, mode='right' if L % 3 else rng.choice(self.MODES)))
                     if not quick or L % 4 == 0:
-                        yield self.rt(rng, f'{enc}.{comp}.{L}.w', enc, comp, body, mode=rng.choice(['wrong', 'none', 'wrong-cb', 'none-cbnull']))
+                        batch.append(self.rt(rng, '', enc, comp, body, mode=rng.choice(['wrong', 'none', 'wrong-cb', 'none-cbnull'])))
+                    if len(batch) >= 8 or L == 48:
+                        yield Case(f'{enc}.{comp}.len<={L}', [b.ops[0] for b in batch], {'batch': [b.meta for b in batch]})
+                        batch = []
         # multi-block bodies: cipher block, zip->buf (64 KiB) and decryption buffer (256 KiB) borders
         big = [4095, 4096, 4097, 65535, 65536, 65537, 262143, 262144, 262145, 300000] if not quick else [4097, 65537, 262145, 300000]
         for enc in self.ENCS:
@@ -582,18 +590,28 @@ class ZipEnc(Engine):
         # retry loops: many wrong answers from the callback, then the cap
         for enc in self.ENCS if not quick else ['zipcrypt', 'aes128']:
             yield self.rt(rng, f'{enc}.many', enc, 'store', 'h:' + hx(rnd_bytes(rng, 21)), mode='many-wrong')
+        for comp, L in (('store', 0), ('store', 33), ('deflate', 33), ('deflate', 3000)):
+            yield self.rt(rng, f'zipcrypt.distinct.{comp}.{L}', 'zipcrypt', comp, f'g:{L}:{rng.randrange(99)}', mode='many-distinct')
+        # the same for AES: a candidate matching only one of the two verification bytes must still be refused
+        for enc, comp, L in (('aes128', 'store', 5), ('aes256', 'deflate', 40)):
+            yield self.rt(rng, f'{enc}.distinct.{comp}.{L}', enc, comp, f'g:{L}:{rng.randrange(99)}', mode='many-distinct')
         wp = b'right'
         yield Case('zipcrypt.cap', [f'rt enc=zipcrypt comp=store sz=set body=h:68656c6c6f wc=0 wp=v:{hx(wp)} rp={hx(b"w0")} '
                                     f'rcb=r10010x{hx(b"w1")},{hx(wp)} bs=4096 seek=0 tamper=none'], {'mode': 'cap', 'enc': 'zipcrypt', 'comp': 'store', 'tamper': 'none'})
-        yield Case('aes.cap', [f'rt enc=aes128 comp=deflate sz=unset body=h:68656c6c6f wc=0 wp=v:{hx(wp)} rp=- '
+        if not quick:
+          yield Case('aes.cap', [f'rt enc=aes128 comp=deflate sz=unset body=h:68656c6c6f wc=0 wp=v:{hx(wp)} rp=- '
                                f'rcb=r10010x{hx(b"w1")},{hx(wp)} bs=4096 seek=1 tamper=none'], {'mode': 'cap', 'enc': 'aes128', 'comp': 'deflate', 'tamper': 'none'})
         # random mix
-        n = 150 if quick else 6000
+        n = 150 if quick else 3000
+        batch = []
         for i in range(n):
             L = rng.choice([0, 1, 5, 15, 16, 17, 19, 20, 31, 32, 33, 100, 1000, rng.randrange(0, 9000)])
             body = rng.choice([f'g:{L}:{rng.randrange(999)}', f'z:{L}:{rng.randrange(256)}', 'h:' + hx(rnd_bytes(rng, min(L, 300)))])
-            yield self.rt(rng, f'rand{i}', rng.choice(self.ENCS), rng.choice(['store', 'deflate']), body,
-                          mode=rng.choice(self.MODES), tamper=rng.choice(['none'] * 6 + ['ct:7', 'mac:3', 'pwv']))
+            batch.append(self.rt(rng, f'rand{i}', rng.choice(self.ENCS), rng.choice(['store', 'deflate']), body,
+                                 mode=rng.choice(self.MODES), tamper=rng.choice(['none'] * 6 + ['ct:7', 'mac:3', 'pwv'])))
+            if quick or len(batch) == 10 or i == n - 1:
+                yield Case(batch[0].label, [b.ops[0] for b in batch], {'batch': [b.meta for b in batch]})
+                batch = []
         # reference archives
         yield from self.refs(rng, tier)
 
@@ -637,16 +655,22 @@ class ZipEnc(Engine):
         return d
 
     def oracle(self, case, impl):
-        if not impl:
+        if len(impl) < len(case.ops):
             return 'no answer'
-        line = impl[0]
+        for op, line in zip(case.ops, impl):
+            r = self.oracle1(op, line)
+            if r:
+                return r
+        return None
+
+    def oracle1(self, op, line):
         if line.startswith('!'):
             return 'implementation crashed: ' + line
-        if case.ops[0].startswith('ref '):
-            return self.oracle_ref(case, line)
+        if op.startswith('ref '):
+            return self.oracle_ref(op, line)
         segs = line.split(' | ')
         head = self.fields(segs[0])
-        opf = self.fields(case.ops[0])
+        opf = self.fields(op)
         if head['w'].split('/')[4] != 'ok' or head['w'].split('/')[5] != 'ok':
             # the writer refused (no passphrase): nothing readable is promised
             return None if (opf['wp'] == 'none' or opf['wp'].endswith(':-')) else 'writer failed although a passphrase was given'
@@ -712,8 +736,8 @@ class ZipEnc(Engine):
             return 0 if spec == 'h:-' else (len(spec) - 2) // 2
         return int(spec.split(':')[1])
 
-    def oracle_ref(self, case, line):
-        opf = self.fields(case.ops[0])
+    def oracle_ref(self, op, line):
+        opf = self.fields(op)
         name = os.path.basename(opf['file'])
         spec0 = REFS.get(name)
         given = ([] if opf['rp'] == '-' else opf['rp'].split(',')) + ([] if opf['rcb'] in ('-', 'n') else opf['rcb'].split(','))
@@ -753,26 +777,31 @@ class ZipEnc(Engine):
         return None
 
     def nontrivial(self, case, impl):
-        return bool(impl) and (' de=1' in impl[0])
+        return any(' de=1' in l for l in impl)
 
     def stats(self, cases, impl):
-        st = {'modes': {}, 'enc': {}, 'comp': {}, 'tamper': {}, 'results': {}, 'refs': 0, 'accidental_matches': 0,
-              'body_len_mod16': {}}
+        st = {'round_trips': 0, 'modes': {}, 'enc': {}, 'comp': {}, 'tamper': {}, 'results': {}, 'refs': 0,
+              'accidental_matches': 0, 'body_len_mod16': {}, 'sz': {}, 'seek': {}, 'block_sizes': {}}
         for c, im in zip(cases, impl):
-            if c.ops[0].startswith('ref '):
-                st['refs'] += 1
-                continue
-            for k, kk in (('modes', 'mode'), ('enc', 'enc'), ('comp', 'comp'), ('tamper', 'tamper')):
-                v = c.meta.get(kk, 'corpus')
-                st[k][v] = st[k].get(v, 0) + 1
-            opf = self.fields(c.ops[0])
-            b = self.body_len(opf['body']) % 16
-            st['body_len_mod16'][b] = st['body_len_mod16'].get(b, 0) + 1
-            if im:
-                m = re.search(r' r=(\w+)', im[0])
+            metas = c.meta.get('batch') or [c.meta] * len(c.ops)
+            for op, line, meta in zip(c.ops, im, metas):
+                if op.startswith('ref '):
+                    st['refs'] += 1
+                    continue
+                st['round_trips'] += 1
+                opf = self.fields(op)
+                mode = meta.get('mode', 'corpus')
+                st['modes'][mode] = st['modes'].get(mode, 0) + 1
+                for k, kk in (('enc', 'enc'), ('comp', 'comp'), ('sz', 'sz'), ('seek', 'seek'), ('block_sizes', 'bs')):
+                    st[k][opf[kk]] = st[k].get(opf[kk], 0) + 1
+                t = opf['tamper'].split(':')[0]
+                st['tamper'][t] = st['tamper'].get(t, 0) + 1
+                b = self.body_len(opf['body']) % 16
+                st['body_len_mod16'][b] = st['body_len_mod16'].get(b, 0) + 1
+                m = re.search(r' r=(\w+)', line)
                 r = m.group(1) if m else 'write-failed'
                 st['results'][r] = st['results'].get(r, 0) + 1
-                f = self.fields(im[0].split(' | ')[0])
+                f = self.fields(line.split(' | ')[0])
                 wp = opf['wp'][2:]
                 order = []
                 for x in ([] if opf['rp'] == '-' else opf['rp'].split(',')) + ([] if opf['rcb'] in '-n' else opf['rcb'].split(',')):
